@@ -370,3 +370,31 @@ def gen_jsonrandom_cases(rng, n):
 
 
 py_checks.GENS["jsonrandom"] = gen_jsonrandom_cases
+
+
+# ---------------------------------------------------------------------------------------------
+# the market's time-indexed getters (group "getters")
+# ---------------------------------------------------------------------------------------------
+GETTERS = ["get_market_price", "get_mid_price", "get_last_executed_price", "get_fundamental_price",
+           "get_executed_volume", "get_executed_total_price", "get_n_buy_order", "get_n_sell_order"]
+
+
+def gen_getter_cases(rng, n):
+    for _ in range(n):
+        m = py_checks._book_market(rng, rng.choice([0, 1, 3]))[1]
+        now = m.get_time()
+        fn = rng.choice(GETTERS)
+        r = rng.random()
+        if r < 0.15:
+            args = [m]
+        elif r < 0.25:
+            args = [m, None]
+        else:
+            args = [m, rng.choice([now, now, now - 1, 0, now + 1, now + 5, -1, -2, 99, 100, 250, -100])]
+        yield Case("Market." + fn, getattr(m, fn), args)
+        if rng.random() < 0.3:
+            ts = [rng.choice([0, now, max(now - 1, 0), now + 1]) for _ in range(rng.choice([0, 1, 3]))]
+            yield Case("Market.get_market_prices", m.get_market_prices, [m, rng.choice([None, ts, ts])])
+
+
+py_checks.GENS["getters"] = gen_getter_cases
